@@ -67,6 +67,9 @@ type c14Result struct {
 	OpsBeforeProbe    int // number of directory operations before the probe (fault placements are drawn from these)
 	SegmentsAfterProbe int
 	Overlapped  bool // MergerNth: a batch was applied between the merger's Persist call and its failure
+	LostCallbacks     []int // unsafe mode: batches whose persisted call-back had not run with nil when the final batch's had
+	RepeatedCallbacks int
+	CallbacksChecked  bool
 	ProbeReached     bool
 	AsyncBeforeProbe int // asynchronous errors reported until the fault was over, the final batch acknowledged and the writer quiet
 }
@@ -184,6 +187,9 @@ func c14Workload(cs *c14Case, res *c14Result) {
 	var held *bluge.Reader
 	var heldState []string
 	var acks int64
+	var cbMu sync.Mutex
+	cbNil := map[int]int{} // unsafe mode: batch number -> invocations of its persisted call-back with a nil error
+	nHistory := len(res.Batches)
 	for i, b := range res.Batches {
 		n := i + 1
 		if cs.Sticky && n == cs.ClearAt {
@@ -198,6 +204,9 @@ func c14Workload(cs *c14Case, res *c14Result) {
 				if err == nil {
 					rdir.Mark("ack", nn)
 					atomic.AddInt64(&acks, 1)
+					cbMu.Lock()
+					cbNil[nn]++
+					cbMu.Unlock()
 				}
 			})
 		}
@@ -274,6 +283,24 @@ func c14Workload(cs *c14Case, res *c14Result) {
 	}
 	if err != nil {
 		res.FinalBatch = err.Error()
+	}
+	if cs.Unsafe && err == nil {
+		// the final batch's call-back has run with a nil error: the persister invokes the call-backs of
+		// earlier batches (also those kept from failed rounds) before it, so every batch of the history has
+		// been told by now that it is on disk - the acknowledgement that "covers everything applied before"
+		cbMu.Lock()
+		for k := 1; k <= nHistory; k++ {
+			if _, failed := res.BatchErrs[k]; failed {
+				continue // (Batch itself refused it)
+			}
+			if cbNil[k] == 0 {
+				res.LostCallbacks = append(res.LostCallbacks, k)
+			} else if cbNil[k] > 1 {
+				res.RepeatedCallbacks++
+			}
+		}
+		cbMu.Unlock()
+		res.CallbacksChecked = true
 	}
 	cur = cur.Apply(fb)
 	// background work goes on after the fault: a dozen more one-document batches must not simply pile up
@@ -537,6 +564,15 @@ func c14Judge(c *vk.Ctx, cs *c14Case, res *vk.ChildResult) {
 	}
 	if out.Overlapped {
 		c.Event("merger_faults_overlapped_by_a_batch", 1)
+	}
+	if out.CallbacksChecked {
+		c.Event("unsafe_runs_with_every_persisted_callback_checked", 1)
+		if out.RepeatedCallbacks > 0 {
+			c.Event("persisted_callbacks_invoked_more_than_once", out.RepeatedCallbacks)
+		}
+		if len(out.LostCallbacks) > 0 {
+			c.Violate("persisted-callback-never-invoked", fmt.Sprintf("%s fault (%s, sticky=%v) at operation %d, unsafe mode: the fault is over and the final batch's persisted call-back has run, but the call-backs of batches %v of the history were never invoked with a nil error: their callers are never told that the batches are on disk", cs.Op, cs.Mode, cs.Sticky, cs.FaultAt, out.LostCallbacks), wit)
+		}
 	}
 	if cs.MergerNth > 0 {
 		c.Event("merger_nth_faults_fired", 1)
